@@ -156,7 +156,7 @@ def coq_tp(spec, route, prev=None):
     """term of type tparams Qops for the object built through `route`"""
     if route == 'ctor':
         return '(ctor Qops %s)' % coq_args(spec)
-    if route == 'setter':
+    if route in ('setter', 'interleaved'):
         return '(via_setter Qops %s)' % coq_args(spec)
     if route == 'twice':
         return '(setTemperatureParameters Qops (ctor Qops %s) %s)' % (coq_args(spec), coq_args(spec))
@@ -166,22 +166,64 @@ def coq_tp(spec, route, prev=None):
 def coq_dk(spec, route, prev=None):
     if route == 'ctor':
         return '(dctor Qops %s)' % coq_args(spec, 'diff')
-    if route == 'setter':
+    if route in ('setter', 'interleaved'):
         return '(dvia_setter Qops (dctor Qops DA0) %s)' % coq_args(spec, 'diff')
     if route == 'twice':
         return '(dvia_setter Qops (dctor Qops %s) %s)' % (coq_args(spec, 'diff'), coq_args(spec, 'diff'))
     return '(dvia_setter Qops (dctor Qops %s) %s)' % (coq_args(prev, 'diff'), coq_args(spec, 'diff'))
 
 
-def build_tp(pkg, spec, route, prev=None):
-    """the kawin object, built through the constructor / the setter of a default object / the setter
-    of an object that held `prev`"""
+def _evaluate(pkg, tp, times, z):
+    if pkg == 'precip':
+        return [float(tp(t)) for t in times]
+    return [[float(v) for v in np.atleast_1d(tp(np.array(z), t))] for t in times]
+
+
+def _bare_model(pkg):
+    """a model built WITHOUT a parameter object of its own (the default one is installed)"""
+    if pkg == 'precip':
+        from kawin.precipitation import PrecipitateModel
+        return PrecipitateModel(phases=['B1'], elements=['B'])
+    from kawin.diffusion import SinglePhaseModel
+    return SinglePhaseModel([0, 1e-4], 5, ['A', 'B'], ['P'], record=False)
+
+
+def _model_set(pkg, m, spec):
+    args = spec_args(spec, pkg)
+    if pkg == 'precip':
+        m.setTemperature(*args)
+    else:
+        {'const': m.setTemperature, 'table': m.setTemperatureArray, 'func': m.setTemperatureFunction}[spec['kind']](*args)
+
+
+def build_tp(pkg, spec, route, prev=None, times=(), z=()):
+    """the kawin object, built through
+       ctor         the constructor,
+       setter       the setter of a default object,
+       reset        the setter of an object that held `prev` AND was evaluated with it at the same times (history on one object),
+       twice        the same specification applied again to an object that was evaluated in between,
+       interleaved  model.setTemperature of a model built without its own object, while a second such model is alive and
+                    is given `prev` afterwards (two objects in one process)"""
+    if route == 'interleaved':
+        with quiet():
+            m1, m2 = _bare_model(pkg), _bare_model(pkg)
+            _model_set(pkg, m1, spec)
+            _model_set(pkg, m2, prev)
+        tp = m1.temperatureParameters
+        tp._c13_keep = (m1, m2)
+        tp._c13_shared = m1.temperatureParameters is m2.temperatureParameters
+        return tp
     if pkg == 'precip':
         from kawin.precipitation import TemperatureParameters as TP
         with quiet():
             if route == 'ctor':
                 return TP(*spec_args(spec))
             tp = TP() if route == 'setter' else TP(*spec_args(spec if route == 'twice' else prev))
+            if route != 'setter':
+                try:
+                    _evaluate(pkg, tp, times, z)
+                except Exception:
+                    pass
             tp.setTemperatureParameters(*spec_args(spec))      # what model.setTemperature(*args) calls
             return tp
     from kawin.diffusion.DiffusionParameters import TemperatureParameters as DTP
@@ -189,6 +231,11 @@ def build_tp(pkg, spec, route, prev=None):
     if route == 'ctor':
         return DTP(*args)
     tp = DTP() if route == 'setter' else DTP(*spec_args(spec if route == 'twice' else prev, 'diff'))
+    if route != 'setter':
+        try:
+            _evaluate(pkg, tp, times, z)
+        except Exception:
+            pass
     # what DiffusionModel.setTemperature / setTemperatureArray / setTemperatureFunction call
     {'const': tp.setIsothermalTemperature, 'table': tp.setTemperatureArray, 'func': tp.setTemperatureFunction}[spec['kind']](*args)
     return tp
@@ -291,19 +338,46 @@ def gen_times(rng, spec):
 
 # ------------------------------------------------------------------------------------------
 # (a) schedule evaluation: implementation, oracle, model
-ROUTES = ('ctor', 'setter', 'reset', 'twice')       # twice: the same specification applied again to the object
+ROUTES = ('ctor', 'setter', 'reset', 'twice', 'interleaved')       # twice: the same specification applied again to the object
+
+
+def conventions(pkg, tp, times, z, vals):
+    """the same evaluation with the time given as numpy scalar, 0-d array, integer (when it is one) and, for the
+    diffusion package, the nodes as list / tuple: all must give what the plain call gave; returns a description or None"""
+    for i, t in enumerate(times):
+        alts = [('numpy float64', np.float64(t)), ('0-d array', np.array(t))]
+        if float(t).is_integer() and abs(t) < 2 ** 40:
+            alts += [('python int', int(t)), ('numpy int64', np.int64(int(t)))]
+        for name, tt in alts:
+            try:
+                if pkg == 'precip':
+                    got = float(tp(tt))
+                else:
+                    got = [float(v) for v in np.atleast_1d(tp(np.array(z), tt))]
+            except Exception as e:
+                return 'time given as %s (%r): %s: %s' % (name, t, type(e).__name__, e)
+            if got != vals[i]:
+                return 'time given as %s: T(%r) = %r, as python float %r' % (name, t, got, vals[i])
+        if pkg == 'diff':
+            for name, zz in (('list', list(z)), ('tuple', tuple(z))):
+                try:
+                    got = [float(v) for v in np.atleast_1d(tp(zz, t))]
+                except Exception as e:
+                    return 'nodes given as %s: %s: %s' % (name, type(e).__name__, e)
+                if got != vals[i]:
+                    return 'nodes given as %s: T(z, %r) = %r, as array %r' % (name, t, got, vals[i])
+    return None
 
 
 def eval_route(pkg, spec, route, prev, times, z):
     out = {'route': route}
     try:
-        tp = build_tp(pkg, spec, route, prev)
+        tp = build_tp(pkg, spec, route, prev, times, z)
         out['tp'] = tp
+        out['shared'] = getattr(tp, '_c13_shared', False)
         out['flag'] = getattr(tp, '_isIsothermal', None) if pkg == 'precip' else None
-        if pkg == 'precip':
-            out['vals'] = [float(tp(t)) for t in times]
-        else:
-            out['vals'] = [[float(v) for v in np.atleast_1d(tp(np.array(z), t))] for t in times]
+        out['vals'] = _evaluate(pkg, tp, times, z)
+        out['conv'] = conventions(pkg, tp, times, z, out['vals']) if route in ('ctor', 'reset') else None
         out['err'] = None
     except Exception as e:
         out['err'] = type(e).__name__ + ': ' + str(e)
@@ -348,6 +422,14 @@ def sched_oracle(case, res):
         if pkg == 'precip' and r['flag'] != base['flag']:
             v.append(('ctor_eq_setter', site, 'flag',
                       '%s schedule: _isIsothermal is %r through the %s route and %r through the %s route' % (spec['kind'], base['flag'], base['route'], r['flag'], r['route'])))
+    for r in res:
+        if r.get('conv'):
+            v.append(('schedule_value', site, 'calling convention', '%s schedule (%s route): %s' % (spec['kind'], r['route'], r['conv'])))
+            break
+    for r in res:
+        if r.get('shared'):
+            v.append(('ctor_eq_setter', site, 'shared object', 'two models built without a parameter object of their own share ONE TemperatureParameters object: the setter of the second changes the schedule of the first'))
+            break
     for r in res:
         if r.get('stable') is False:
             v.append(('schedule_value', site, 'changed by a later specification',
@@ -590,6 +672,8 @@ class Rig:
                 r = orig_create(T)
             finally:
                 self.in_create -= 1
+            built = set(e[0] for e in self.ent if e)
+            self.table_T = built.pop() if len(built) == 1 else float(T)
             if self.in_growth:
                 self.rebuilt = True
             elif not self.started:
@@ -620,7 +704,10 @@ class Rig:
             finally:
                 self.in_psd -= 1
         m._createLookupBinary, m._growthRateBinary, m._updateParticleSizeDistribution = create, growth, psd
-        pd = m.pData
+        self._wrap_pdata()
+
+    def _wrap_pdata(self):
+        pd = self.m.pData
         orig_app, orig_set = pd.appendToArrays, pd.setSlice
 
         def app(newData):
@@ -632,11 +719,29 @@ class Rig:
             self._emit(('Rc',))
         pd.appendToArrays, pd.setSlice = app, sets
 
+    def restart(self):
+        """model.reset() (the way TTPCalculator and parameter sweeps re-use a model): results are dropped, the
+        configuration stays; observation starts again"""
+        m = self.m
+        with quiet():
+            m.reset()
+        cmin, cmax, nb, minb, maxb = self.cfg.get('bins', (1e-10, 1e-8, 30, 20, 40))
+        m.setPBMParameters(cMin=cmin, cMax=cmax, bins=nb, minBins=minb, maxBins=maxb, adaptive=self.cfg.get('adaptive', True))
+        self.events, self.ent, self.planar = [], [[] for _ in self.phases], {}
+        self.started, self.T0, self.sizes0, self.hits, self.worst, self.rebuilds = False, None, None, [], 0.0, 0
+        self.table_T = None
+        self._wrap_pdata()
+
     # -- observation + oracle after every operation
     def _emit(self, op, out=None):
         m = self.m
-        lk = getattr(m, '_lookupTemp', None)
-        obs = {'dTemp': float(m.dTemp), 'lookup': None if lk is None else float(lk),
+        # temperature of the table in use: the temperature of the backend queries of the last complete build (what the
+        # user-supplied thermodynamics object saw), not a private attribute of the model
+        lk = getattr(self, 'table_T', None)
+        dT = getattr(m, 'dTemp', None)
+        if dT is None and lk is not None and op[0] == 'G':
+            dT = op[1] - lk
+        obs = {'dTemp': float(dT or 0.0), 'lookup': None if lk is None else float(lk),
                'tabs': [(len(e), min(e), max(e)) if e else (0, 0.0, 0.0) for e in self.ent], 'out': None}
         k = len(self.events)
         if op[0] == 'G':
@@ -897,8 +1002,24 @@ def run_model(cfg, route, hows=None):
     from kawin.solver.Iterators import ExplicitEulerIterator, RK4Iterator
     stages = stages_of(cfg)
     hows = [route] + list(hows or ['model'] * (len(stages) - 1))
-    rig = Rig(dict(cfg, spec=stages[0]['spec']), route)
+    first = cfg.get('first') if route == 'setter' else None
+    rig = Rig(dict(cfg, spec=first['spec'] if first else stages[0]['spec']), route)
     m, st = rig.m, rig.st
+    if first:
+        # history on ONE model (TTPCalculator / parameter sweep pattern): solve with another specification, reset(),
+        # new specification through a setter, solve - must equal the run of a fresh model given the final specification
+        try:
+            with quiet():
+                m.solve(first['tf'], solverType=ExplicitEulerIterator if cfg['solver'] == 'euler' else RK4Iterator, verbose=False)
+        except Exception:
+            pass
+        rig.restart()
+        apply_spec(m, 'precip', stages[0]['spec'], first.get('how', 'model'))
+    bystander = None
+    if route == 'setter':
+        # a second model alive in the same process, built the same way and given ANOTHER schedule afterwards
+        T_other = 655.0 + 3.0 * len(stages)
+        bystander = make_model(dict(cfg, backend=None, phases=['B1'], spec={'kind': 'table', 'hours': [0.0, 1.0], 'kelvin': [T_other, T_other + 90.0]}), 'setter')
     maxdT = rig.maxdT
     hits = []
     count = [0]
@@ -949,7 +1070,7 @@ def run_model(cfg, route, hows=None):
         bounds.append(int(m.pData.n))
         flags.append(getattr(m.temperatureParameters, '_isIsothermal', None))
     n = m.pData.n
-    out = {'rig': rig, 'err': err, 'n': n, 'flag': flags[-1] if flags else None, 'flags': flags, 'bounds': bounds, 'hows': hows,
+    out = {'rig': rig, 'err': err, 'n': n, 'flag': flags[-1] if flags else None, 'flags': flags, 'bounds': bounds, 'hows': hows, 'bystander': bystander,
            'data': {k: np.array(getattr(m.pData, k)[:n + 1]).copy() for k in m.pData.ATTRIBUTES}}
     # the recorded temperature is the schedule IN FORCE when the step was made, at the recorded time
     # (step 0: setup, first specification; steps bounds[k-1]+1 .. bounds[k]: specification of stage k)
@@ -1109,6 +1230,21 @@ def run_diff(cfg, route, hows=None):
         m = SinglePhaseModel([0, 1e-4], cfg['N'], ['A', 'B'], ['P'], thermodynamics=StubDiff(), record=False)
         {'const': m.setTemperature, 'table': m.setTemperatureArray, 'func': m.setTemperatureFunction}[spec['kind']](*args)
     m.setCompositionStep(0.1, 0.4, 0.5e-4, 'B')
+    if cfg.get('first') and route == 'setter':
+        # history on one model: solve with another specification, reset(), final specification, solve
+        m2 = m
+        apply_spec(m2, 'diff', cfg['first']['spec'], 'model')
+        try:
+            with quiet():
+                m2.solve(cfg['first']['tf'], verbose=False)
+        except Exception:
+            pass
+        m2.reset()
+        apply_spec(m2, 'diff', spec, cfg['first'].get('how', 'model'))
+    bystander = None
+    if route == 'setter':
+        bystander = SinglePhaseModel([0, 1e-4], cfg['N'], ['A', 'B'], ['P'], thermodynamics=StubDiff(), record=False)
+        bystander.setTemperatureArray([0.0, 1.0], [411.0, 512.0])
     m.hashTable = LogTable()
     calls = []
     stage = [0]
@@ -1131,7 +1267,7 @@ def run_diff(cfg, route, hows=None):
         except Exception as e:
             err = type(e).__name__ + ': ' + str(e)
             break
-    return {'err': err, 'calls': calls, 'z': [float(x) for x in m.z], 'x': np.array(m.x, dtype=float).copy(), 'hows': hows}
+    return {'err': err, 'calls': calls, 'z': [float(x) for x in m.z], 'x': np.array(m.x, dtype=float).copy(), 'hows': hows, 'bystander': bystander}
 
 
 def gen_dstages(rng, idx):
@@ -1399,6 +1535,13 @@ def run(ctx):
     # several solve() calls with the specification changed in between (constant -> constant, schedule -> constant, ...)
     runs += [gen_stages(rng, quick, i) for i in range(6 if quick else 32)]
     runs = [set_containers(c, i) for i, c in enumerate(runs)]
+    # every third treatment: the setter run is made on a model that was already used (other specification, solve, reset())
+    for i, c in enumerate(runs):
+        if i % 3 == 1 and c.get('backend') != 'alzr':
+            Tf = 640.0 + 7.0 * i
+            c['first'] = {'spec': [{'kind': 'const', 'T': Tf}, {'kind': 'table', 'hours': [0.0, 0.01], 'kelvin': [Tf, Tf + 30.0], 'container': 'f64'},
+                                   {'kind': 'func', 'a': Tf, 'b': 0.5, 'c': 0.0}][(i // 3) % 3],
+                          'tf': 0.5, 'how': LATER_HOWS[(i // 3) % 4]}
     terms, meta = [], []
     for c in runs:
         hits, art = check_input(c)
@@ -1468,6 +1611,8 @@ def run(ctx):
                       {'broken': {'tie': 'ast check of _getFluxes', 'what': msg}}, msg, no_input=True)
     for i in range(4 if quick else 30):
         c = gen_diff(rng)
+        if i % 2 == 1:
+            c['first'] = {'spec': {'kind': 'const', 'T': 432.0 + i}, 'tf': 5.0, 'how': ('model', 'param', 'object')[i % 3]}
         hits, art = check_input(c)
         ctx.count(c, c['spec']['kind'] != 'const')
         ctx.hist('type', 'diff')
